@@ -45,13 +45,14 @@ def judge(cases, now_slack=True):
     for c in cases:
         st = {}   # conn -> dict(multi, queued, abort, watch{key: (content, stepindex)})
         prev_dump = {}
+        exec_queue = {}   # step index of an EXEC -> the (name, args) it ran
         for i, s in enumerate(c["steps"]):
             if s["x"] == "REOPEN":
                 st = {}
             if s["conn"] < 0:
                 prev_dump = s["dump"]
                 continue
-            cs = st.setdefault(s["conn"], {"multi": False, "queued": 0, "abort": False, "watch": {}})
+            cs = st.setdefault(s["conn"], {"multi": False, "queued": 0, "abort": False, "watch": {}, "queue": []})
             name, rep = s["name"], s["reply"]
             first = rep[0] if rep else ""
             bad = None
@@ -66,7 +67,7 @@ def judge(cases, now_slack=True):
                 else:
                     if first != "S4f4b":
                         err("MULTI/reply", "MULTI must reply OK, got %s" % " ".join(rep)[:60])
-                    cs.update(multi=True, queued=0, abort=False, nonqueue_err=False)
+                    cs.update(multi=True, queued=0, abort=False, nonqueue_err=False, queue=[])
             elif name == "DISCARD":
                 if cs["multi"]:
                     if first != "S4f4b":
@@ -89,6 +90,7 @@ def judge(cases, now_slack=True):
                         err("UNWATCH/queued", "UNWATCH inside MULTI must be queued")
                     cs["queued"] += 1
             elif name == "EXEC":
+                exec_queue[i] = list(cs.get("queue", [])) if cs["multi"] and not cs["abort"] else []
                 if not cs["multi"]:
                     if first != "E":
                         err("EXEC/without-multi", "EXEC without MULTI must be an error, got %s" % " ".join(rep)[:60])
@@ -108,7 +110,12 @@ def judge(cases, now_slack=True):
                                 touched.append((k, sj["name"]))
                             before = c["steps"][j - 1]["dump"].get(k) if j > 0 else None
                             if sj["dump"].get(k) != before:
-                                writers.setdefault(k, []).append(sj["name"])
+                                wn = sj["name"]
+                                if wn == "EXEC":
+                                    # name the queued command that wrote the key, not the EXEC that ran it
+                                    named = [qn for qn, qa in exec_queue.get(j, []) if k in qa]
+                                    wn = named[-1] if named else wn
+                                writers.setdefault(k, []).append(wn)
                     if first == "E" and cs.get("nonqueue_err"):
                         err("EXEC/aborted-by-nested-multi", "an error reply to MULTI/WATCH inside the transaction (not a queued command) aborted it: %s" % " ".join(rep)[:40])
                     elif changed:
@@ -136,6 +143,7 @@ def judge(cases, now_slack=True):
                 if cs["multi"]:
                     if first == "S515545554544":
                         cs["queued"] += 1
+                        cs.setdefault("queue", []).append((name, s["args"]))
                         if s["dump"] != prev_dump and not _only_time(prev_dump, s["dump"]):
                             err("%s/executed-while-queued" % name, "a queued command changed the keyspace before EXEC")
                     elif first == "E":
